@@ -19,7 +19,7 @@ PATH_TEXT = st.text(alphabet=st.sampled_from("abcxyzXYZ019_-+%&=?#.;:, é"), min
 HEADER_TEXT = st.text(alphabet=st.sampled_from("abcxyzXYZ019_-+%&=?#/.;:,é"), max_size=6)
 QUERY_TEXT = sg.TEXT
 # (the last name of query / header / cookie is also the name of the apiKey security scheme of that location)
-NAMES = {"query": ["q", "id", "filter", "X-Val", "api_key"], "header": ["X-Val", "X-Id", "If-Thing", "X-Api-Key"], "cookie": ["sid", "c2", "token"], "path": ["id", "sub"]}
+NAMES = {"query": ["q", "id", "filter", "Q", "Filter", "X-Val", "api_key"], "header": ["X-Val", "X-Id", "If-Thing", "X-Api-Key"], "cookie": ["sid", "c2", "SID", "token"], "path": ["id", "sub"]}  # (query and cookie names are case-sensitive: `q` and `Q` are two parameters)
 PRIMITIVES = ("integer", "number", "string", "boolean")
 
 
@@ -74,11 +74,12 @@ def operation_plan(draw, dialects=("3.0", "3.0", "3.1", "2.0"), max_params=4, bo
     locs = draw(st.lists(st.sampled_from(["query", "query", "header", "cookie", "path"] if dialect != "2.0" else ["query", "query", "header", "path"]), max_size=max_params))
     params, used = [], set()
     for loc in locs:
-        free = [n for n in NAMES[loc] if (n.lower(), loc) not in used]
+        key = (lambda n: n.lower()) if loc == "header" else (lambda n: n)
+        free = [n for n in NAMES[loc] if (key(n), loc) not in used]
         if not free:
             continue
         name = draw(st.sampled_from(free))
-        used.add((name.lower(), loc))
+        used.add((key(name), loc))
         p = draw(parameter(dialect, loc, name))
         p["level"] = draw(st.sampled_from(["operation", "operation", "path"]))
         p["ref"] = draw(st.integers(0, 4)) == 0
